@@ -37,16 +37,31 @@ def log(*a):
 # build
 
 def build_harness():
+    """build rlv (dev + release) against the crate's current working tree.
+    The crate is /repo; for development (mutants in scratch worktrees) RLV_REPO may name another
+    checkout, in which case a private copy of the harness pointing there is built under work/."""
     env = dict(os.environ, CARGO_NET_OFFLINE="true")
+    repo = os.environ.get("RLV_REPO", "/repo")
+    hdir = HARNESS
     lock = open(os.path.join(WORK, ".build.lock"), "w")
     fcntl.flock(lock, fcntl.LOCK_EX)
     try:
-        lockfile = os.path.join(HARNESS, "Cargo.lock")
+        if repo != "/repo":
+            tag = hashlib.sha1(os.path.abspath(repo).encode()).hexdigest()[:10]
+            hdir = os.path.join(WORK, "harness-" + tag)
+            os.makedirs(os.path.join(hdir, ".cargo"), exist_ok=True)
+            shutil.rmtree(os.path.join(hdir, "src"), ignore_errors=True)
+            shutil.copytree(os.path.join(HARNESS, "src"), os.path.join(hdir, "src"))
+            shutil.copy(os.path.join(HARNESS, ".cargo", "config.toml"), os.path.join(hdir, ".cargo", "config.toml"))
+            toml = open(os.path.join(HARNESS, "Cargo.toml")).read().replace('path = "/repo"', 'path = "%s"' % os.path.abspath(repo))
+            open(os.path.join(hdir, "Cargo.toml"), "w").write(toml)
+            shutil.copy(os.path.join(HARNESS, "Cargo.lock"), os.path.join(hdir, "Cargo.lock"))
+        lockfile = os.path.join(hdir, "Cargo.lock")
         if not os.path.exists(lockfile):
-            shutil.copy("/repo/Cargo.lock", lockfile)
+            shutil.copy(os.path.join(repo, "Cargo.lock"), lockfile)
         for prof in ([], ["--release"]):
             t0 = time.time()
-            r = subprocess.run(["cargo", "build", "--offline", "-q"] + prof, cwd=HARNESS, env=env,
+            r = subprocess.run(["cargo", "build", "--offline", "-q"] + prof, cwd=hdir, env=env,
                                stdout=subprocess.PIPE, stderr=subprocess.STDOUT, text=True)
             if r.returncode != 0:
                 raise ToolError("harness build failed (%s):\n%s" % (prof, r.stdout[-4000:]))
@@ -54,8 +69,8 @@ def build_harness():
     finally:
         fcntl.flock(lock, fcntl.LOCK_UN)
         lock.close()
-    return {"dev": os.path.join(HARNESS, "target", "debug", "rlv"),
-            "rel": os.path.join(HARNESS, "target", "release", "rlv")}
+    return {"dev": os.path.join(hdir, "target", "debug", "rlv"),
+            "rel": os.path.join(hdir, "target", "release", "rlv")}
 
 
 # ------------------------------------------------------------------------------------------
@@ -369,7 +384,10 @@ def main():
     plan = PROPS[prop]
     t_start = time.time()
     os.makedirs(WORK, exist_ok=True)
-    workdir = os.path.join(WORK, "%s-%s" % (prop, tier) if not replay else "%s-replay" % prop)
+    suffix = ""
+    if os.environ.get("RLV_REPO"):
+        suffix = "-" + hashlib.sha1(os.path.abspath(os.environ["RLV_REPO"]).encode()).hexdigest()[:10]
+    workdir = os.path.join(WORK, ("%s-%s" % (prop, tier) if not replay else "%s-replay" % prop) + suffix)
     shutil.rmtree(workdir, ignore_errors=True)
     os.makedirs(workdir)
     try:
@@ -518,8 +536,9 @@ def main():
             "wall_s": round(time.time() - t_start, 1),
             "violations": len(violations),
         }
-        os.makedirs(os.path.join(VERIF, "evidence"), exist_ok=True)
-        with open(os.path.join(VERIF, "evidence", prop + ".json"), "w") as f:
+        evdir = os.path.join(VERIF, "evidence") if not os.environ.get("RLV_REPO") else os.path.join(workdir, "evidence")
+        os.makedirs(evdir, exist_ok=True)
+        with open(os.path.join(evdir, prop + ".json"), "w") as f:
             json.dump(evidence, f, indent=1)
         log("done in %.1fs: %d violation(s), %d known" % (time.time() - t_start, len(violations), sum(known_hits.values())))
         return 1 if violations else 0
